@@ -223,7 +223,7 @@ def _grid(ctx: Ctx) -> typing.Iterable[typing.Any]:
             m["statements"] = [_sealed()]
             yield {"skeleton": m, "edits": [], "grid": "version"}
     # --- every directive (and the service marker) at every position of small message / service skeletons
-    directives = [{"s": "dir", "name": n, "expr": e} for n in ("union", "deprecated", "sealed", "print", "foo", "assert", "extent") for e in (None, ["bool", True], ["int", 8])]
+    directives = [{"s": "dir", "name": n, "expr": e} for n in ("union", "deprecated", "sealed", "print", "foo", "assert", "extent") for e in (None, ["bool", True], ["bool", False], ["int", 8], ["int", 0], ["frac", 0, 1], ["frac", 1, 2], ["str", ""], ["str", "x"])]
     directives += [{"s": "dir", "name": "extent", "expr": ["rel", 0]}, {"s": "dir", "name": "assert", "expr": ["bool", False]}, {"s": "marker"}]
     fa = {"s": "field", "type": u8, "name": "a"}
     fb = {"s": "field", "type": dict(u8, width=16), "name": "b"}
